@@ -20,7 +20,7 @@ RULE = (
     "with >= 3 pairs or nesting depth >= 2; distinct by hash of (grammar, mode, rule, input, k)."
 )
 ASSUMPTIONS = ["the predicates are exactly the clauses of the statement; nothing about which tree is right"]
-SIZES = {"quick": {"grammars": 100, "mut": 8}, "thorough": {"grammars": 3000, "mut": 200}}
+SIZES = {"quick": {"grammars": 300, "mut": 8}, "thorough": {"grammars": 3000, "mut": 200}}
 KEEP = "pestverif.treecheck:check_pairs"
 
 
@@ -61,7 +61,7 @@ def eval_case(modes, case):
 
 def bucket_of(msg: str) -> str:
     head = msg.split(":")[0]
-    for key in ("span", "overlap", "text/str", "name", "tag", "tokens()", "flatten()", "dumps()", "dump()",
+    for key in ("not inside", "outside start_pos", "span", "overlap", "text/str", "name", "tag", "tokens()", "flatten()", "dumps()", "dump()",
                 "json.loads", "stream()", "inner()", "root pair", "start rule", "raised", "iteration", "inner_texts"):
         if key in msg:
             return key.replace(":", "")
